@@ -961,7 +961,9 @@ var mutations = []mutation{
 			base64.URLEncoding.EncodeToString([]byte("padded")), base64.RawURLEncoding.EncodeToString([]byte(strings.Repeat("i", 3000))),
 			// well-formed ids whose encoding needs the two characters the URL-safe alphabet replaces
 			base64.RawURLEncoding.EncodeToString([]byte("ab?")), base64.RawURLEncoding.EncodeToString([]byte("ab>")),
-			base64.RawURLEncoding.EncodeToString([]byte("x\ufffd")), base64.RawURLEncoding.EncodeToString([]byte("?>?>?>~~~")))
+			base64.RawURLEncoding.EncodeToString([]byte("x\ufffd")), base64.RawURLEncoding.EncodeToString([]byte("?>?>?>~~~")),
+			// segments a lenient base64 decoder reads as the empty id, or as another id than their text suggests
+			"\n", "\r\n", "%0A", "%0D%0A", "\n\n\n", "QQ\n", "\nQQ", "Q\nQ")
 		q.Segs[len(q.Segs)-1] = id
 		return true
 	}},
